@@ -117,7 +117,7 @@ def reinflate_symmetry(ctx):
         "fast_ticc.matrix_compression._upper_to_full" in getattr(ana.prog, "renamed", {})
     fi = ana.func("matrix_compression._upper_to_full") if mirror_in_helper else re_
     b = ana.builder(fi, no_inline=(ana.known if mirror_in_helper else _table_fn))
-    rt = b.return_term()
+    rt = tm.strip_copies(b.return_term())
     syms = sorted({x.name for x in tm.subterms(rt) if isinstance(x, Sym)})
     if len(syms) != 1:
         raise AnalysisError(f"mirror step is not a function of one matrix: {str(rt)[:100]}")
